@@ -19,6 +19,7 @@ import (
 	"github.com/internetarchive/Zeno/internal/pkg/controler"
 	"github.com/internetarchive/Zeno/internal/pkg/reactor"
 	"github.com/internetarchive/Zeno/internal/pkg/source/lq/sqlc_model"
+	"github.com/internetarchive/Zeno/internal/pkg/stats"
 	"github.com/internetarchive/Zeno/internal/pkg/verifhook"
 	"github.com/internetarchive/Zeno/pkg/models"
 	"github.com/internetarchive/Zeno/verifharness/origin"
@@ -282,6 +283,15 @@ func (r *Run) Start() {
 	controler.Start()
 	r.started = true
 	r.tr.Emit(map[string]any{"ev": "run.started"})
+	// worker gauges while the workers are alive (bounded wait for the goroutines to come up)
+	for i := 0; i < 200; i++ {
+		if int(stats.PreprocessorRoutinesGet()) == r.cfg.WorkersCount && int(stats.ArchiverRoutinesGet()) == r.cfg.WorkersCount && int(stats.PostprocessorRoutinesGet()) == r.cfg.WorkersCount {
+			break
+		}
+		time.Sleep(10 * time.Millisecond)
+	}
+	r.tr.Emit(map[string]any{"ev": "gauges", "phase": "running", "workers": r.cfg.WorkersCount, "pre": stats.PreprocessorRoutinesGet(),
+		"arch": stats.ArchiverRoutinesGet(), "post": stats.PostprocessorRoutinesGet()})
 }
 
 func (r *Run) finishedCount(ids []string) (n int) {
@@ -349,6 +359,8 @@ func (r *Run) Stop(watchdog time.Duration) bool {
 	select {
 	case <-done:
 		r.tr.Emit(map[string]any{"ev": "stop.ret"})
+		r.tr.Emit(map[string]any{"ev": "gauges", "phase": "stopped", "workers": 0, "pre": stats.PreprocessorRoutinesGet(),
+			"arch": stats.ArchiverRoutinesGet(), "post": stats.PostprocessorRoutinesGet()})
 	case <-time.After(watchdog):
 		ok = false
 		r.tr.Emit(map[string]any{"ev": "stop.stuck", "after_ms": watchdog.Milliseconds()})
